@@ -64,9 +64,23 @@ var c17Templates = []c17tmpl{
 	{[]string{"local a = 1", "return debug.getinfo(1, 'l').currentline", ""}, 1, 1, "value"},                    // currentline
 	{[]string{"local s = 'a'", "local y = s ..", "{}"}, 1, 2, "error"},                                          // concat
 	{[]string{"local a, b = 1, {}", "if a <", "b then end"}, 1, 2, "error"},                                     // compare
+	// the first instruction after an and/or value statement (its trailing jump slot is reused)
+	{[]string{"local t; local n = t or 1", "local b = t", ".x"}, 1, 2, "error"},
+	{[]string{"local function f(t, n) n = n or 1", "return t + n", "end f()"}, 1, 1, "error"},
+	{[]string{"local t, u; u = t and t.k", "u", "()"}, 1, 2, "error"},
+	// numeric for: a non-number initial value or step is reported at the header, not inside the body
+	{[]string{"local s = {}", "for i = s, 2 do", "local a = 1 end"}, 1, 1, "error"},
+	{[]string{"local s = {}", "for i = 1, 2, s do", "local a = 1; local b = 2 end"}, 1, 1, "error"},
+	// stores, method calls, length and negation
+	{[]string{"local a = {}", "a.b", ".c = 1"}, 1, 2, "error"},
+	{[]string{"local o", "o:m(", ")"}, 1, 2, "error"},
+	{[]string{"local t", "local n = #", "t"}, 1, 2, "error"},
+	{[]string{"local t = {}", "local n = -", "t"}, 1, 2, "error"},
+	// currentline inside a nested function called from a later line
+	{[]string{"local function f() return debug.getinfo(2, 'l').currentline end", "return (f(", "))"}, 1, 2, "value"},
 }
 
-//verif:harness prop=C17 tier=quick qparams=glen:2 tparams=glen:3 bounds="8 templates, 2 gaps of glen symbolic bytes (2 quick / 3 thorough) each drawn from {blank, tab, LF, CR}: every line layout incl. CRLF/LFCR pairs"
+//verif:harness prop=C17 tier=quick qparams=glen:2 tparams=glen:3 bounds="18 templates, 2 gaps of glen symbolic bytes (2 quick / 3 thorough) each drawn from {blank, tab, LF, CR}: every line layout incl. CRLF/LFCR pairs"
 func H_C17_lines() {
 	t := c17Templates[VChoice(len(c17Templates))]
 	glen := VParam("glen", 2)
@@ -159,6 +173,57 @@ func H_C17_getlocal() {
 				VAssert(sameValue(L.Get(i+1), vals[i]), "setlocal: every other variable is unchanged")
 			}
 		}
+	}
+	VReach("end")
+}
+
+// C17.scopes — debug.getlocal against a hand-derived scope table: sequential and nested blocks, shadowing,
+// local functions.  Each entry lists the variables in scope at the query point, in declaration order; the
+// value "x"/"y" stands for the symbolic inputs, "f" for any function, other values are literal numbers.
+type c17scope struct {
+	src   string
+	names []string
+	vals  []string
+}
+
+var c17Scopes = []c17scope{
+	{`local a = x; do local p = 1; local q = 2 end; do local r = y; local s = 4; return debug.getlocal(1, n) end`, []string{"a", "r", "s"}, []string{"x", "y", "4"}},
+	{`local a = x; do local p = 1 end; local b = y; do local q = 3; do local r = 4 end; local s = 5; return debug.getlocal(1, n) end`, []string{"a", "b", "q", "s"}, []string{"x", "y", "3", "5"}},
+	{`local a = x; local a = y; return debug.getlocal(1, n)`, []string{"a", "a"}, []string{"x", "y"}},
+	{`local a = x; local function g() local z = 1 end; local b = y; return debug.getlocal(1, n)`, []string{"a", "g", "b"}, []string{"x", "f", "y"}},
+	{`local function f(a, b) do local p = 1 end; do local q = a; local r = 3; return debug.getlocal(1, n) end end; return f(x, y)`, []string{"a", "b", "q", "r"}, []string{"x", "y", "x", "3"}},
+	{`local a = x; do local p = 1; do local q = 2 end end; do do local r = 3 end; local s = y; return debug.getlocal(1, n) end`, []string{"a", "s"}, []string{"x", "y"}},
+	{`local a = x; if a == a then local p = 1 else local q = 2 end; local b = y; return debug.getlocal(1, n)`, []string{"a", "b"}, []string{"x", "y"}},
+	{`local a = x; while true do local p = y; break end; repeat local q = 1 until true; local c = 7; return debug.getlocal(1, n)`, []string{"a", "c"}, []string{"x", "7"}},
+}
+
+//verif:harness prop=C17 tier=quick bounds="8 scope layouts (sequential and nested blocks, shadowing, local functions, if/while/repeat bodies left behind), index n in 1..6, 2 symbolic float64 values"
+func H_C17_scopes() {
+	L := newL(Options{}, BaseLibName, DebugLibName)
+	x, y := VFloat("x"), VFloat("y")
+	L.G.Global.RawSetString("x", LNumber(x))
+	L.G.Global.RawSetString("y", LNumber(y))
+	n := 1 + VChoice(6)
+	L.G.Global.RawSetString("n", LNumber(n))
+	t := c17Scopes[VChoice(len(c17Scopes))]
+	err := loadRun(L, t.src, 2)
+	VAssert(err == nil, "scopes: runs: "+t.src)
+	if n <= len(t.names) {
+		VAssert(L.Get(1) == LString(t.names[n-1]), "scopes: the n-th variable in scope, in declaration order: "+t.src)
+		switch v := t.vals[n-1]; v {
+		case "x":
+			VAssert(sameValue(L.Get(2), LNumber(x)), "scopes: its current value: "+t.src)
+		case "y":
+			VAssert(sameValue(L.Get(2), LNumber(y)), "scopes: its current value: "+t.src)
+		case "f":
+			_, ok := L.Get(2).(*LFunction)
+			VAssert(ok, "scopes: its current value: "+t.src)
+		default:
+			VAssert(L.Get(2) == LNumber(float64(int(v[0]-'0'))), "scopes: its current value: "+t.src)
+		}
+	} else {
+		nm, isStr := L.Get(1).(LString)
+		VAssert(L.Get(1) == LNil || (isStr && len(nm) > 0 && nm[0] == '('), "scopes: beyond the variables in scope there is nothing (or a temporary): "+t.src)
 	}
 	VReach("end")
 }
